@@ -15,7 +15,8 @@ from dsim import depth as DP
 PROPERTY = "C12"
 SRC_DIR = None
 KNOWN_PREDICATES = {}
-LEVEL_TEXT = ('Seeded search over query histories: three twins of one finite rule or set (uncached, cached-cold, cached-warmed by a generated prefix) receive generated sequences of index/slice/contains/before/after/between/xafter/count queries with boundary arguments, partial iterations and replace() calls; every answer must equal list semantics on the uncached listing, whatever the cache state (off/empty/partial/complete) and whatever ran before. Sampling of histories and arguments.')
+LEVEL_TEXT = ('Seeded search over query histories: three twins of one finite rule or set (uncached, cached-cold, cached-warmed by a generated prefix) receive generated sequences of index/slice/contains/before/after/between/xafter/count queries with boundary arguments, partial iterations and replace() calls; every answer must equal list semantics on the uncached listing, whatever the cache state (off/empty/partial/complete) and whatever ran before. Sampling of histories and arguments.'
+    ' Session 3 added: calendar.setfirstweekday() events between construction and replace(), rules cut off by MAXYEAR, rules starting at datetime.min, n-th weekdays / set positions / year days / week numbers / Easter offsets, aware datetimes, slice bounds of +-10**18.')
 LEVEL_NOTE = ('Trusted: list(uncached twin) as L (the property is stated relative to it); Python list semantics as the query model. Single thread; thread schedules over the same cache are C11.')
 TECHNIQUE = ('deterministic simulation of cache-state histories against a list reference model')
 
